@@ -2,6 +2,7 @@ package num
 
 import (
 	"fmt"
+	"go/constant"
 	"go/token"
 	"go/types"
 	"sort"
@@ -141,6 +142,46 @@ func (e *Engine) Eval(fn *ssa.Function, st *State, check bool, call ssa.CallInst
 	return fr.rets, fr.panics
 }
 
+// fnThresholds: integer constants compared against in fn (and +-1), used as widening thresholds.
+func (e *Engine) fnThresholds(fn *ssa.Function) []int64 {
+	if t, ok := e.thrCache[fn]; ok {
+		return t
+	}
+	set := map[int64]bool{}
+	for _, b := range fn.Blocks {
+		for _, in := range b.Instrs {
+			bo, ok := in.(*ssa.BinOp)
+			if !ok {
+				continue
+			}
+			switch bo.Op {
+			case token.LSS, token.LEQ, token.GTR, token.GEQ, token.EQL, token.NEQ:
+				for _, op := range []ssa.Value{bo.X, bo.Y} {
+					if c, ok := op.(*ssa.Const); ok && c.Value != nil && isInt(c.Type()) {
+						if v, ok := constant.Int64Val(c.Value); ok && v >= 0 && v < 1<<40 {
+							set[v] = true
+							set[v+1] = true
+							if v > 0 {
+								set[v-1] = true
+							}
+						}
+					}
+				}
+			}
+		}
+	}
+	var out []int64
+	for v := range set {
+		out = append(out, v)
+	}
+	sort.Slice(out, func(i, j int) bool { return out[i] < out[j] })
+	if e.thrCache == nil {
+		e.thrCache = map[*ssa.Function][]int64{}
+	}
+	e.thrCache[fn] = out
+	return out
+}
+
 func (e *Engine) fixpoint(fr *frame) {
 	fn := fr.fn
 	dirty := map[int]bool{0: true}
@@ -166,8 +207,10 @@ func (e *Engine) fixpoint(fr *frame) {
 					fr.visits[b.Index]++
 					if fr.visits[b.Index] > widenDelay {
 						NoThresholds = fr.visits[b.Index] > widenDelay+8
+						ExtraThresholds = e.fnThresholds(fn)
 						newIn = Join(old, newIn, e.liveAt(b), true)
 						NoThresholds = false
+						ExtraThresholds = nil
 					}
 				}
 				if old != nil && newIn.SameAs(old) {
@@ -266,6 +309,9 @@ func (e *Engine) entryState(fr *frame, b *ssa.BasicBlock) *State {
 			e.TraceJoin = false
 		}
 	}
+	if acc != nil {
+		acc.Canonicalize()
+	}
 	return acc
 }
 
@@ -294,6 +340,7 @@ func (e *Engine) assignPhis(fr *frame, s *State, b *ssa.BasicBlock, predIdx int)
 			targets = append(targets, e.lenAtomOf(phi))
 			vals = append(vals, e.lenExpr(s, src))
 			facts = append(facts, fact{key: e.vid(phi), elemNN: e.elemsNonNil(s, src), nonnil: false})
+			facts = append(facts, fact{key: "D" + e.vid(phi), elemNN: e.elemsDeepNN(s, src)})
 		default:
 			f := fact{key: e.vid(phi)}
 			f.nonnil = e.isNonNil(s, src)
@@ -302,6 +349,7 @@ func (e *Engine) assignPhis(fr *frame, s *State, b *ssa.BasicBlock, predIdx int)
 				f.ptr, f.hasPtr = a, true
 			}
 			facts = append(facts, f)
+			facts = append(facts, fact{key: "D" + e.vid(phi), nonnil: e.isDeepNN(s, src)})
 		}
 	}
 	s.AssignParallel(targets, vals)
@@ -383,6 +431,25 @@ func (e *Engine) runBlock(fr *frame, b *ssa.BasicBlock, final bool) {
 			return
 		case *ssa.Return:
 			if final {
+				// keep the error/state correlation of a callee result that is returned as is
+				if n := len(in.Results); n > 0 && corrCall != nil && isErrorType(in.Results[n-1].Type()) {
+					if c := st.corr[e.vid(in.Results[n-1])]; c != nil && c.WhenNil != nil && c.WhenNonNil != nil {
+						wn, we := c.WhenNil.Clone(), c.WhenNonNil.Clone()
+						for _, i2 := range b.Instrs {
+							if ex, ok := i2.(*ssa.Extract); ok && ex.Tuple == ssa.Value(corrCall) {
+								e.exec(fr, wn, ex)
+								e.exec(fr, we, ex)
+							}
+						}
+						k := e.vid(in.Results[n-1])
+						wn.isnil[k] = true
+						delete(wn.nonnil, k)
+						we.nonnil[k] = true
+						delete(we.isnil, k)
+						fr.rets = append(fr.rets, retInfo{wn, in}, retInfo{we, in})
+						return
+					}
+				}
 				fr.rets = append(fr.rets, retInfo{st, in})
 			}
 			return
@@ -691,6 +758,8 @@ func (e *Engine) checkLoops(fr *frame) {
 		ok, why := e.loopTerminates(fr, l)
 		in := l.header.Instrs[len(l.header.Instrs)-1]
 		e.oblige(fr, "T-LOOP", in, "variant", ok, why)
+		aok, awhy := e.loopAllocation(fr, l)
+		e.oblige(fr, "M-ALLOC", in, "loop", aok, awhy)
 		if e.OnLoop != nil {
 			e.OnLoop(e, fr, l)
 		}
@@ -788,8 +857,8 @@ func mentions(s *State, a Atom) bool {
 // constant or built from atoms not modified in the loop.
 func (e *Engine) boundedOnEdge(fr *frame, l *loopInfo, es *State, cur Lin, dir int64) bool {
 	c := es.Subst(cur).Scale(dir)
-	// constant bound via intervals
-	if r := es.Bounds(c); r.HasHi {
+	// constant bound via intervals (the artificial 2^50 range of lengths does not count)
+	if r := es.Bounds(c); r.HasHi && r.Hi < lenMax/2 {
 		return true
 	}
 	inv := e.loopInvariantAtoms(fr, l)
@@ -861,4 +930,172 @@ func (e *Engine) loopInvariantAtoms(fr *frame, l *loopInfo) map[Atom]bool {
 		}
 	}
 	return inv
+}
+
+// loopAllocation (M-ALLOC M2/M3): on every back edge the number of elements
+// allocated during the iteration (ghost counter minus its snapshot at the loop
+// head) is bounded by a constant <= 64, or amortised: <= k*(c' - c) + 64 for a
+// cursor c (header phi or memory cell) that never decreases and is bounded
+// above by 2^16+64 or 4*len(input)+64; and a loop that allocates has a trip
+// count bounded the same way (its variant has such a bound).
+func (e *Engine) loopAllocation(fr *frame, l *loopInfo) (bool, string) {
+	if !e.loopMayAllocate(fr, l) {
+		return true, "no allocation site in the loop (transitively)"
+	}
+	if e.tripBounded(fr, l, nil) {
+		return true, "loop may allocate; its trip count is bounded by 2^16+64 or by 4*len(input)+64"
+	}
+	return false, "the loop may allocate on every iteration but no bound on its trip count by 2^16 or by the input length was found"
+}
+
+// loopMayAllocate: some block of the loop contains make/new(heap)/append/string
+// conversion, or calls a function that may (transitively, by the call graph).
+func (e *Engine) loopMayAllocate(fr *frame, l *loopInfo) bool {
+	for _, b := range fr.fn.Blocks {
+		if !l.blocks[b.Index] {
+			continue
+		}
+		if e.blockMayAllocate(b, map[*ssa.Function]bool{}) {
+			return true
+		}
+	}
+	return false
+}
+
+func (e *Engine) blockMayAllocate(b *ssa.BasicBlock, seen map[*ssa.Function]bool) bool {
+	for _, in := range b.Instrs {
+		switch x := in.(type) {
+		case *ssa.MakeSlice, *ssa.MakeMap, *ssa.MakeChan, *ssa.MakeClosure:
+			return true
+		case *ssa.Alloc:
+			if x.Heap {
+				return true
+			}
+		case *ssa.Convert:
+			if isSliceLike(x.Type()) && isSliceLike(x.X.Type()) && !onlyUsedByLen(x) {
+				return true
+			}
+		case *ssa.Call:
+			c := x.Common()
+			if bi, ok := c.Value.(*ssa.Builtin); ok {
+				if bi.Name() == "append" {
+					return true
+				}
+				continue
+			}
+			var fs []*ssa.Function
+			if f, ok := c.Value.(*ssa.Function); ok && !c.IsInvoke() {
+				fs = []*ssa.Function{f}
+			} else {
+				fs = e.callees[x]
+			}
+			for _, f := range fs {
+				if e.fnMayAllocate(f, seen) {
+					return true
+				}
+			}
+		}
+	}
+	return false
+}
+
+func (e *Engine) fnMayAllocate(f *ssa.Function, seen map[*ssa.Function]bool) bool {
+	if seen[f] {
+		return false
+	}
+	seen[f] = true
+	if !e.inPkg(f) || len(f.Blocks) == 0 {
+		// external: error constructors and formatting allocate a bounded amount; reflect.New/Append allocate
+		n := f.String()
+		return n == "reflect.New" || n == "reflect.Append" || n == "reflect.NewAt"
+	}
+	for _, b := range f.Blocks {
+		if e.blockMayAllocate(b, seen) {
+			return true
+		}
+	}
+	return false
+}
+
+// boundedAbove: v <= 2^16+64 or v <= 4*len(P)+64 for a slice parameter P of some active frame.
+func (e *Engine) boundedAbove(st *State, v Lin) bool {
+	if st.Entails(Const(1<<16 + 64).Sub(v)) {
+		return true
+	}
+	for val, la := range e.lenAtoms {
+		if _, isParam := val.(*ssa.Parameter); !isParam {
+			continue
+		}
+		if st.Entails(Var(la).Scale(4).AddConst(64).Sub(v)) {
+			return true
+		}
+	}
+	return false
+}
+
+// tripBounded: some header phi / cell strictly increases on every back edge and
+// is bounded above (boundedAbove), or strictly decreases, is >= 0 and bounded above.
+func (e *Engine) tripBounded(fr *frame, l *loopInfo, _ *State) bool {
+	h := l.header
+	type cand struct {
+		atom Atom
+		next func(s *State, predIdx int) Lin
+	}
+	var cands []cand
+	for _, in := range h.Instrs {
+		phi, ok := in.(*ssa.Phi)
+		if !ok {
+			break
+		}
+		switch {
+		case isInt(phi.Type()):
+			cands = append(cands, cand{e.atomOf(phi), func(s *State, i int) Lin { return e.expr(s, phi.Edges[i]) }})
+		case isSliceLike(phi.Type()):
+			cands = append(cands, cand{e.lenAtomOf(phi), func(s *State, i int) Lin { return e.lenExpr(s, phi.Edges[i]) }})
+		}
+	}
+	for _, a := range fr.snap[h.Index] {
+		a := a
+		cands = append(cands, cand{e.snapAtom(fr, h.Index, a), func(s *State, i int) Lin { return s.Expr(a) }})
+	}
+	for _, c := range cands {
+		for _, dir := range []int64{1, -1} {
+			ok, any := true, false
+			for idx, p := range h.Preds {
+				if !h.Dominates(p) {
+					continue
+				}
+				es := fr.edges[edgeKey{p.Index, h.Index}]
+				if es == nil || es.dead {
+					continue
+				}
+				any = true
+				cv := es.Expr(c.atom)
+				nv := c.next(es, idx)
+				if e.Trace != nil {
+					e.trace("TRIP %s b%d cand %s dir %d: cur=%s next=%s progress=%v nonneg=%v boundedAbove=%v", shortFn(fr.fn), h.Index, e.atomName(c.atom), dir,
+						e.linStr(cv), e.linStr(es.Subst(nv)), es.Entails(nv.Sub(cv).Scale(dir).AddConst(-1)), es.Entails(nv), e.boundedAbove(es, cv))
+				}
+				if !es.Entails(nv.Sub(cv).Scale(dir).AddConst(-1)) {
+					ok = false
+					break
+				}
+				if dir > 0 {
+					if !e.boundedAbove(es, cv) || !es.Entails(cv.AddConst(1<<16)) {
+						ok = false
+						break
+					}
+				} else {
+					if !es.Entails(nv) || !e.boundedAbove(es, cv) {
+						ok = false
+						break
+					}
+				}
+			}
+			if any && ok {
+				return true
+			}
+		}
+	}
+	return false
 }
